@@ -16,6 +16,7 @@ import (
 	"github.com/aperturerobotics/util/prng"
 	"pgregory.net/rapid"
 	"verif/harness/ev"
+	"verif/harness/sched"
 )
 
 const P = "C19"
@@ -401,7 +402,7 @@ func drive[C any](t *testing.T, rule string, gen func(*rapid.T) C, chk func(*ev.
 		Prop: P, Rule: rule, Gen: gen, ReplayRuns: 1,
 		Run: func(t *testing.T, c C) *ev.Verdict {
 			v := &ev.Verdict{}
-			chk(v, c)
+			sched.Guard(func() { chk(v, c) })
 			return v
 		},
 	})
